@@ -244,6 +244,21 @@ func init() {
 					kb, _ := yaml.Marshal(k)
 					fmt.Fprintf(&b, "  %s: m\n", strings.TrimSpace(string(kb)))
 				}
+				// keys of the merged mapping that the target overrides AFTER the merge key, one of them spelled
+				// non-canonically (0x10 for 16, True for true): the merged pair is suppressed, the override
+				// stands at its own (later) position
+				overrides := map[string]string{}
+				clash := false
+				for _, k := range append(append([]string{}, keys...), src...) {
+					if k == "16" || k == "true" {
+						clash = true
+					}
+				}
+				if !clash && rng.Chance(60) {
+					b.WriteString("  16: m\n  true: m\n")
+					overrides["16"] = sx.Pick(rng, []string{"0x10", "16", "0o20"})
+					overrides["true"] = sx.Pick(rng, []string{"True", "true", "TRUE"})
+				}
 				b.WriteString("steps: []\ntarget:\n")
 				var want []string
 				for i, k := range keys {
@@ -264,6 +279,10 @@ func init() {
 					kb, _ := yaml.Marshal(k)
 					fmt.Fprintf(&b, "  %s: e\n", strings.TrimSpace(string(kb)))
 					want = append(want, k)
+				}
+				for _, canon := range sortedKeys(overrides) {
+					fmt.Fprintf(&b, "  %s: override\n", overrides[canon])
+					want = append(want, canon)
 				}
 				mt := b.String()
 				mc := sx.L(sx.A("yaml-merge"), sx.A(mt))
